@@ -10,6 +10,7 @@ import (
 	"reflect"
 	"strconv"
 	"strings"
+	"time"
 
 	"verifharness/ref"
 )
@@ -106,6 +107,11 @@ func flatFields(t reflect.Type) []reflect.StructField {
 	return out
 }
 
+var (
+	timeType     = reflect.TypeOf(time.Time{})
+	durationType = reflect.TypeOf(time.Duration(0))
+)
+
 func structFields(t reflect.Type) []ref.Node {
 	var out []ref.Node
 	for _, f := range flatFields(t) {
@@ -160,7 +166,7 @@ func fieldNode(ti tagInfo, f reflect.StructField, t reflect.Type) ref.Node {
 		}
 		n.Children = []ref.Node{fieldNode(kti, reflect.StructField{}, t.Key()), fieldNode(vti, reflect.StructField{}, t.Elem())}
 		return n
-	case t.Kind() == reflect.Struct:
+	case t.Kind() == reflect.Struct && t != timeType:
 		n := ref.Node{Name: ti.name, Rep: "req", Kind: "group", Children: structFields(t)}
 		if optional {
 			n.Rep = "opt"
@@ -198,6 +204,25 @@ func leafID(ti tagInfo, t reflect.Type) string {
 	}
 	if ti.has("date") {
 		return "date"
+	}
+	if a, ok := ti.arg("time"); (ok || ti.has("time")) && (t == durationType || t.Kind() == reflect.Int32 || t.Kind() == reflect.Int64) {
+		switch strings.Split(a, ":")[0] {
+		case "millisecond":
+			return "time:ms"
+		case "microsecond":
+			return "time:us"
+		case "nanosecond":
+			return "time:ns"
+		}
+		if t == durationType {
+			return "time:ns" // documented default for time.Duration
+		}
+		return "time:ms"
+	}
+	if t == timeType && !ti.has("timestamp") {
+		if _, ok := ti.arg("timestamp"); !ok {
+			return "ts:ns" // a bare time.Time is TIMESTAMP(NANOS)
+		}
 	}
 	if a, ok := ti.arg("timestamp"); ok || ti.has("timestamp") {
 		switch strings.Split(a, ":")[0] {
@@ -337,7 +362,52 @@ func defaultV(n *ref.Node) ref.V {
 	return ref.V{}
 }
 
+// unitNanos returns the number of nanoseconds per unit of a ts:/time: leaf id.
+func unitNanos(id string) int64 {
+	switch {
+	case strings.HasSuffix(id, ":ms"):
+		return 1e6
+	case strings.HasSuffix(id, ":us"):
+		return 1e3
+	}
+	return 1
+}
+
+// fillTime maps a generated integer onto a time.Time inside the range where
+// the documented conversions are defined (UnixNano / Sub do not overflow:
+// 1824..2116); dates are midnights UTC.
+func fillTime(l ref.Leaf, i int64) time.Time {
+	if l.ID == "date" {
+		return time.Unix((i%50000)*86400, 0).UTC()
+	}
+	u := unitNanos(l.ID)
+	i %= (1 << 62) / u
+	return time.Unix(0, i*u).UTC()
+}
+
+func timeValue(l ref.Leaf, t time.Time) int64 {
+	if l.ID == "date" {
+		return t.Unix() / 86400
+	}
+	return t.UnixNano() / unitNanos(l.ID)
+}
+
 func fillLeaf(rv reflect.Value, l ref.Leaf, v ref.V) {
+	switch rv.Type() {
+	case timeType:
+		rv.Set(reflect.ValueOf(fillTime(l, v.I)))
+		return
+	case durationType:
+		if strings.HasPrefix(l.ID, "time:") {
+			u := unitNanos(l.ID)
+			i := v.I % (86400e9 / u) // time of day
+			if i < 0 {
+				i = -i
+			}
+			rv.SetInt(i * u)
+			return
+		}
+	}
 	switch rv.Kind() {
 	case reflect.Bool:
 		rv.SetBool(v.I != 0)
@@ -433,6 +503,14 @@ func extract(rv reflect.Value, n *ref.Node, lax bool) ref.V {
 }
 
 func extractLeaf(rv reflect.Value, l ref.Leaf) ref.V {
+	switch rv.Type() {
+	case timeType:
+		return ref.V{I: timeValue(l, rv.Interface().(time.Time))}
+	case durationType:
+		if strings.HasPrefix(l.ID, "time:") {
+			return ref.V{I: rv.Int() / unitNanos(l.ID)}
+		}
+	}
 	switch rv.Kind() {
 	case reflect.Bool:
 		if rv.Bool() {
